@@ -412,6 +412,9 @@ func checkC06(c LimitCase, o *Obs) error {
 	}
 	var after []error
 	for i := 0; i < 3; i++ {
+		if i == 1 {
+			conn.SetReadDeadline(time.Now().Add(time.Hour)) // a retrying application
+		}
 		_, _, e := conn.NextReader()
 		after = append(after, e)
 	}
